@@ -60,7 +60,7 @@ Section Repair.
       fetch_segment c (node_init H c) 0%Z tries ord = (dn0, r0) -> dn_segsize dn0 = Some ss ->
       (* read_encrypted: the whole file, completed without error *)
       read_plan (N.of_nat (length ct)) segsize guess 0 None = SegDone ws ->
-      serve c (node_init H c) ws script = (chunks, true) ->
+      serve c (node_init H c) ws script = (chunks, None) ->
       let f' := repair_encode enc (c_k c) (c_n c) ss (concat chunks) in
       f' = f /\ g_cap key f' = c /\ forall ver o i, g_share f' ver o i = g_share f ver o i.
   Proof.
@@ -71,7 +71,7 @@ Section Repair.
                 H_eqb_spec all_truthy_H pair_inj block_inj seg_inj ueb_inj parse_ser
                 k n segsize guess 0 None ct key script Hct Hk Hs Hm Hg) as [ws' [Hplan' Hall]].
     rewrite Hplan in Hplan'. inversion Hplan'. subst ws'.
-    destruct (Hall chunks true Hsv) as [_ Hok]. specialize (Hok eq_refl).
+    destruct (Hall chunks None Hsv) as [_ Hok]. specialize (Hok eq_refl).
     assert (Hct' : concat chunks = ct) by (rewrite Hok; reflexivity).
     assert (Ef : f' = f).
     { unfold f', repair_encode. rewrite Hct', Ess. reflexivity. }
@@ -104,12 +104,12 @@ Definition f3_script (j : N) : list (Z * share hs ub * (nat -> list Z)) * list Z
 
 Lemma f3_download_runs :
   sym_serve f3_dec f3_cap (sym_node_init f3_cap) [mk_write 0 0 2; mk_write 1 0 2; mk_write 2 0 1] f3_script
-  = ([[1; 2]; [3; 4]; [5]]%N, true).
+  = ([[1; 2]; [3; 4]; [5]]%N, None).
 Proof. vm_compute. reflexivity. Qed.
 
 (* with only the corrupted share 0 and share 1 the first segment cannot be fetched: nothing is
    delivered, and nothing wrong is delivered *)
 Lemma f3_download_fails_cleanly :
   sym_serve f3_dec f3_cap (sym_node_init f3_cap) [mk_write 0 0 2; mk_write 1 0 2; mk_write 2 0 1]
-            (fun _ => ([(0, f3_bad0, no_ord); (1, f3_share 1, no_ord)], [])) = ([], false).
+            (fun _ => ([(0, f3_bad0, no_ord); (1, f3_share 1, no_ord)], [])) = ([], Some ENotEnoughShares).
 Proof. vm_compute. reflexivity. Qed.
